@@ -6,6 +6,8 @@
 From Coq Require Import ZArith List.
 From WebP Require Import Gen.Kernels Lib.ZBits Lib.Res Spec.YUV Model.Yuv Spec.Alpha Model.Alpha Model.AlphaBlend
   Proofs.C12_blend Proofs.C13_yuv Proofs.Alpha_unfilter.
+From WebP Require Spec.Container Proofs.Container_bytes Proofs.Container_safety Model.Container.
+From WebP Require Model.ArithDec Proofs.C15_main Proofs.C15_ops Proofs.VP8L_kernels Proofs.VP8_kernels.
 Import ListNotations.
 Open Scope Z_scope.
 
@@ -37,4 +39,26 @@ Theorem alpha_loop_safe : forall f w data buf, (1 <= w)%nat -> length buf = (4 *
   is_ok (apply_alpha f w data buf) = true.
 Proof.
   intros f w data buf Hw Hl. destruct (apply_alpha_spec_lemma f w data buf Hw Hl) as (b & E & _). rewrite E. reflexivity.
+Qed.
+
+(* decoder.rs container layer (WebPDecoder::new = read_data with its u64 position arithmetic, chunk scan, ANMF peeking, ANIM parse;
+   the metadata getters with the memory limit): for EVERY byte string no panic and no run-away loop *)
+Theorem container_new_safe : forall bytes,
+  Spec.Container.all_bytes bytes = true -> Spec.Container.len bytes <= 9223372036854775807 ->
+  (forall p, Model.Container.new bytes <> Panic p) /\ Model.Container.new bytes <> OutOfFuel.
+Proof. exact Proofs.Container_safety.new_no_panic. Qed.
+
+(* vp8_arithmetic_decoder.rs: for every byte string and every request script, no debug_assert fires, the u64 value never
+   overflows, no index is out of range *)
+Theorem arith_decoder_safe : forall trees data ops,
+  Forall byte data -> Z.of_nat (length data) < 2 ^ 63 -> Forall (Proofs.C15_main.op_ok trees) ops ->
+  exists outs eof, Model.ArithDec.run trees data ops = Ok (outs, eof) /\ length outs = length ops.
+Proof. exact Proofs.C15_main.arith_no_panic_lemma. Qed.
+
+(* lossless_transform.rs scalar kernels and lossless.rs subsample_size: no i16 / u16 / u32 overflow *)
+Theorem vp8l_kernels_safe : forall a b c, byte a -> byte b -> byte c ->
+  average2_ok a b = true /\ clamp_add_subtract_full_ok a b c = true /\ clamp_add_subtract_half_ok a b = true.
+Proof.
+  intros a b c Ha Hb Hc. split; [exact (proj2 (Proofs.VP8L_kernels.average2_spec a b Ha Hb))|].
+  split; [exact (proj2 (Proofs.VP8L_kernels.clamp_full_spec a b c Ha Hb Hc)) | exact (proj2 (Proofs.VP8L_kernels.clamp_half_spec a b Ha Hb))].
 Qed.
